@@ -267,6 +267,88 @@ theorem lbufSave_bufs (ed ed' : Ed) (lb : Lb) (b : Nat) (e : Int) (path : Bytes)
             · simp only [Option.some.injEq, Prod.mk.injEq] at h; rw [← h.2]; exact h2
       · simp only [hfo, if_true, Option.some.injEq, Prod.mk.injEq] at h; rw [← h.2]; exact h1
 
+/-! ### `lbuf_save` as the command handlers call it: the path may be empty (`lbufSaveP`) -/
+
+/-- with a file name, `lbufSaveP` is `lbufSave` -/
+theorem lbufSaveP_of_isEmpty_false {ed : Ed} {lb : Lb} {b : Nat} {e : Int} {path : Bytes} {force : Bool} {ts : Int}
+    (h : path.isEmpty = false) : lbufSaveP ed lb b e path force ts = lbufSave ed lb b e path force ts := by
+  unfold lbufSaveP
+  simp only [h, Bool.false_eq_true, if_false]
+
+theorem lbufSaveP_of_ne {ed : Ed} {lb : Lb} {b : Nat} {e : Int} {path : Bytes} {force : Bool} {ts : Int}
+    (hpne : path ≠ []) : lbufSaveP ed lb b e path force ts = lbufSave ed lb b e path force ts := by
+  apply lbufSaveP_of_isEmpty_false
+  cases path with
+  | nil => exact absurd rfl hpne
+  | cons _ _ => rfl
+
+/-- the state after the failed `open("")`: one scheduled call consumed, `fired` counted when the schedule
+    had an error there; nothing else moves -/
+def unnamedFail (ed : Ed) : Ed :=
+  if ed.nextFault.1 == 101 then { ed.nextFault.2 with fired := ed.nextFault.2.fired + 1 } else ed.nextFault.2
+
+/-- without a file name, `open("")` fails: the save always reports "cannot create file" -/
+theorem lbufSaveP_empty (ed : Ed) (lb : Lb) (b : Nat) (e : Int) (force : Bool) (ts : Int) :
+    lbufSaveP ed lb b e [] force ts = some (some (strOf "write failed: cannot create file"), unnamedFail ed) := rfl
+
+theorem unnamedFail_bufs (ed : Ed) : (unnamedFail ed).bufs = ed.bufs := by
+  unfold unnamedFail; split <;> rfl
+
+theorem unnamedFail_files (ed : Ed) : (unnamedFail ed).files = ed.files := by
+  unfold unnamedFail; split <;> rfl
+
+theorem unnamedFail_clock (ed : Ed) : (unnamedFail ed).clock = ed.clock := by
+  unfold unnamedFail; split <;> rfl
+
+theorem unnamedFail_calls (ed : Ed) : (unnamedFail ed).calls = ed.calls + 1 := by
+  unfold unnamedFail; split <;> rfl
+
+theorem unnamedFail_faults (ed : Ed) : (unnamedFail ed).faults = ed.faults := by
+  unfold unnamedFail; split <;> rfl
+
+/-- a save without a file name touches neither the file system nor the clock -/
+theorem lbufSaveP_files_of_empty (ed ed' : Ed) (lb : Lb) (b : Nat) (e : Int) (force : Bool) (ts : Int)
+    (r : Option Bytes) (h : lbufSaveP ed lb b e [] force ts = some (r, ed')) :
+    ed'.files = ed.files ∧ ed'.clock = ed.clock := by
+  rw [lbufSaveP_empty] at h
+  simp only [Option.some.injEq, Prod.mk.injEq] at h
+  rw [← h.2]
+  exact ⟨unnamedFail_files ed, unnamedFail_clock ed⟩
+
+/-- a save without a file name never succeeds -/
+theorem lbufSaveP_empty_ne_ok (ed ed' : Ed) (lb : Lb) (b : Nat) (e : Int) (force : Bool) (ts : Int) :
+    lbufSaveP ed lb b e [] force ts ≠ some (none, ed') := by
+  rw [lbufSaveP_empty]
+  intro h
+  simp only [Option.some.injEq, Prod.mk.injEq] at h
+  exact absurd h.1 (by simp)
+
+/-- a save without a file name always returns an error, and that error is "cannot create file" -/
+theorem lbufSaveP_empty_err (ed ed' : Ed) (lb : Lb) (b : Nat) (e : Int) (force : Bool) (ts : Int)
+    (r : Option Bytes) (h : lbufSaveP ed lb b e [] force ts = some (r, ed')) :
+    r = some (strOf "write failed: cannot create file") ∧ ed' = unnamedFail ed := by
+  rw [lbufSaveP_empty] at h
+  simp only [Option.some.injEq, Prod.mk.injEq] at h
+  exact ⟨h.1.symm, h.2.symm⟩
+
+/-- a save the handlers see succeed had a file name, and is a success of `lbufSave` -/
+theorem lbufSaveP_ok (ed ed' : Ed) (lb : Lb) (b : Nat) (e : Int) (path : Bytes) (force : Bool) (ts : Int)
+    (h : lbufSaveP ed lb b e path force ts = some (none, ed')) :
+    path ≠ [] ∧ lbufSave ed lb b e path force ts = some (none, ed') := by
+  have hpne : path ≠ [] := by
+    intro hp; subst hp; exact lbufSaveP_empty_ne_ok _ _ _ _ _ _ _ h
+  exact ⟨hpne, by rw [← lbufSaveP_of_ne hpne]; exact h⟩
+
+/-- `lbufSaveP` never touches the buffer table, whatever the path and the outcome -/
+theorem lbufSaveP_bufs (ed ed' : Ed) (lb : Lb) (b : Nat) (e : Int) (path : Bytes) (force : Bool) (ts : Int)
+    (r : Option Bytes) (h : lbufSaveP ed lb b e path force ts = some (r, ed')) : ed'.bufs = ed.bufs := by
+  by_cases hp : path = []
+  · subst hp
+    rw [(lbufSaveP_empty_err _ _ _ _ _ _ _ _ h).2]
+    exact unnamedFail_bufs ed
+  · rw [lbufSaveP_of_ne hp] at h
+    exact lbufSave_bufs _ _ _ _ _ _ _ _ _ h
+
 /-! ### unfolding the dispatcher -/
 
 theorem runCmd_quit (f : Nat) (ed : Ed) (loc cmd arg : Bytes) (txt : Option Bytes) :
@@ -322,11 +404,12 @@ theorem ecWrite_unfold (ed ed1 ed2 ed3 ed4 : Ed) (loc cmd arg path : Bytes) (b0 
     (hx : (if cmd.headD 0 == 120 then some (ed1.modifiedAt 0) else some (true, ed1) : Option (Bool × Ed)) = some (true, ed2))
     (hr : exRegion ed2 loc = some ((0, b0, e0), ed3))
     (hc : ed3.cur = some cur) (hsh : path.headD 0 ≠ 33)
-    (hbe : (if loc.isEmpty then ((0 : Int), ed3.len) else (b0, e0)) = (b, e))
+    (hbe : (if loc.isEmpty then ((0 : Int), ed3.len) else (b0, e0)) = (b, e)) (hpne : path ≠ [])
     (hs : lbufSave ed3 cur.lb b.toNat e path (hasBang cmd) (if cur.path == path then cur.mtime else 0) = some (none, ed4)) :
     ecWrite ed loc cmd arg =
       writeFinish (ed4.show ([34] ++ path ++ strOf "\"  [=" ++ intStr (e - b) ++ strOf "]  [w]")) cur path b e := by
   have hb4 := lbufSave_bufs _ _ _ _ _ _ _ _ _ hs
+  rw [← lbufSaveP_of_ne hpne] at hs
   have hc4 : ed4.cur = some cur := by rw [cur_congr hb4, hc]
   have csh : (path.headD 0 == 33) = false := beq_eq_false_iff_ne.2 hsh
   unfold ecWrite
